@@ -10,7 +10,7 @@ cd "$WT" || exit 2
 git checkout -q -- . ; git apply --check "$P" || { echo "SEED: patch does not apply"; exit 2; }
 if [ -z "${SKIP_CONFIRM:-}" ]; then
   mkdir -p "$(dirname "$DPATH")"; cp "$DEMO" "$DPATH"
-  PKG=""; case "$DPATH" in incremental-map/*) PKG="-p incremental-map";; esac
+  PKG=""; case "$DPATH" in incremental-map/*) PKG="-p incremental-map --features im";; esac
   CARGO_TARGET_DIR="$WT/target" cargo test --offline $PKG --test "$NAME" >/tmp/seed-demo-clean.log 2>&1; CLEAN=$?
   git apply "$P"
   CARGO_TARGET_DIR="$WT/target" cargo test --offline $PKG --test "$NAME" >/tmp/seed-demo-mut.log 2>&1; MUT=$?
